@@ -209,3 +209,37 @@ Print Assumptions blocking_queue_in_issue_order.
 
 (* (`ids s` is in issue order by construction: `issue` appends the new request at the end of `reqs`, every other
    operation updates requests in place - `ids_put`, `ids_act` in ApiLive.v, and the first component of `Fr` above.) *)
+
+(* ====================================================================== *)
+(* C20, "closing again is harmless": a second close() changes nothing at all *)
+
+Lemma filter_none : forall (A : Type) (f : A -> bool) l, (forall x, In x l -> f x = false) -> filter f l = [].
+Proof.
+  intros A f l. induction l as [|x l IH]; intros H; [reflexivity|]. cbn [filter]. rewrite (H x (or_introl eq_refl)).
+  apply IH. intros y Hy. apply H. right. exact Hy.
+Qed.
+
+Lemma close_after_close : forall s, K s -> app_attached s = false -> reset_in_progress s = false -> step s EClose = s.
+Proof.
+  intros s (_ & U & A) AP RS. cbn [step]. unfold close. rewrite U, RS. unfold cancel_waiters.
+  assert (V : filter (fun r => negb (is_done r) && match r_fut r with FPending => true | _ => false end) (reqs (detach_app s)) = []).
+  { apply filter_none. intros x Hx. change (reqs (detach_app s)) with (reqs s) in Hx. destruct (A x Hx) as [NP _].
+    destruct (r_fut x); try (rewrite andb_false_r; reflexivity). congruence. }
+  rewrite V. cbn [fold_left]. unfold detach_app. destruct s. cbn in *. subst. reflexivity.
+Qed.
+
+Theorem close_again_is_harmless : forall evs, wf_events evs -> reset_in_progress (run_events evs) = false ->
+  step (step (run_events evs) EClose) EClose = step (run_events evs) EClose.
+Proof.
+  intros evs W RS. destruct (reachable_J evs W) as (R & L & C & GD). set (s := run_events evs) in *.
+  assert (K2 : K (step s EClose)).
+  { split; [apply step_J; [exact I|split; [exact R|split; [exact L|split; [exact C|exact GD]]]]|]. split; [apply close_makes_link_absent|].
+    cbn [step]. rewrite close_eq. destruct (close_pre_facts s R L C GD) as (R0 & L0 & C0 & G0 & U0 & RS0). rewrite RS0, RS.
+    assert (R1 : Q (detach_app (close_pre s))) by (apply (RI_fields (close_pre s)); try reflexivity; exact R0).
+    exact (proj1 (proj2 (proj2 (cancel_waiters_spec (detach_app (close_pre s)) R1 L0 C0 G0)))). }
+  apply close_after_close; [exact K2|apply close_detaches_app; exact RS|].
+  (* close leaves the reset mark as it was *)
+  cbn [step]. rewrite close_eq. destruct (close_pre_facts s R L C GD) as (_ & _ & _ & _ & _ & RS0). rewrite RS0, RS.
+  destruct (rel_cancel_waiters (detach_app (close_pre s))) as (LK & _). unfold link_of in LK. injection LK as _ _ _ LK. rewrite LK. reflexivity.
+Qed.
+Print Assumptions close_again_is_harmless.
